@@ -147,7 +147,7 @@ fn raw_query(q: &QuerierWrapper<Empty>, req: &QueryRequest<Empty>) -> Option<Bin
     }
 }
 
-fn run_qact(node: u64, storage: &dyn Storage, querier: &QuerierWrapper<Empty>, q: &QAct) {
+pub fn run_qact(node: u64, storage: &dyn Storage, querier: &QuerierWrapper<Empty>, q: &QAct) {
     let val = match q {
         QAct::Read(k) => ObsVal::Bytes(storage.get(k)),
         QAct::Dump => ObsVal::Dump(storage.range(None, None, Order::Ascending).collect()),
